@@ -206,8 +206,7 @@ def run_programs(lits, fs_results, budget_s):
 
 def from_str_results(lits):
     binary = B.build("release", ())
-    wdir = os.path.join(B.WORK, ID)
-    os.makedirs(wdir, exist_ok=True)
+    wdir = B.workdir(ID)
     reqfile = os.path.join(wdir, "fs.req")
     outfile = os.path.join(wdir, "fs.out")
     open(reqfile, "w").write("\n".join("parse " + E.hexs(t) for _, t in lits) + "\n")
@@ -219,6 +218,14 @@ def from_str_results(lits):
 
 
 def run(lits, tier, seed, t0):
+    import fcntl
+    os.makedirs(B.BUILD, exist_ok=True)
+    with open(os.path.join(B.BUILD, ".lock-c18"), "w") as lk:
+        fcntl.flock(lk, fcntl.LOCK_EX)      # the generated crate and its target dir are shared
+        return _run(lits, tier, seed, t0)
+
+
+def _run(lits, tier, seed, t0):
     fs = from_str_results(lits)
     if len(fs) != len(lits):
         print("INCONCLUSIVE property=C18 driver returned %d results for %d literals" % (len(fs), len(lits)))
